@@ -551,7 +551,34 @@ impl Ord for OrderedFloat64 {
 
 impl Hash for OrderedFloat64 {
     fn hash<H: Hasher>(&self, state: &mut H) {
-        self.0.to_bits().hash(state);
+        // Equal values must hash equally: all NaNs are equal, and 0.0 == -0.0.
+        let bits = if self.0.is_nan() {
+            f64::NAN.to_bits()
+        } else if self.0 == 0.0 {
+            0.0f64.to_bits()
+        } else {
+            self.0.to_bits()
+        };
+        bits.hash(state);
+    }
+}
+
+/// Compares an `i64` with an `f64` exactly (the integer is not rounded to a float).
+/// NaN is greater than every integer, like in [`OrderedFloat64`].
+fn cmp_int_float(a: i64, b: f64) -> std::cmp::Ordering {
+    use std::cmp::Ordering;
+    const TWO_63: f64 = 9_223_372_036_854_775_808.0;
+    if b.is_nan() || b >= TWO_63 {
+        return Ordering::Less;
+    }
+    if b < -TWO_63 {
+        return Ordering::Greater;
+    }
+    // b is within the i64 range here, so its integral part converts exactly.
+    let whole = b.trunc();
+    match a.cmp(&(whole as i64)) {
+        Ordering::Equal => (0.0).partial_cmp(&(b - whole)).unwrap_or(Ordering::Equal),
+        other => other,
     }
 }
 
@@ -628,9 +655,10 @@ impl PartialEq for OrderableValue {
             (Self::String(a), Self::String(b)) => a == b,
             (Self::Bool(a), Self::Bool(b)) => a == b,
             (Self::Timestamp(a), Self::Timestamp(b)) => a == b,
-            // Cross-type numeric comparison
-            (Self::Int64(a), Self::Float64(b)) => (*a as f64) == b.0,
-            (Self::Float64(a), Self::Int64(b)) => a.0 == (*b as f64),
+            // Cross-type numeric comparison (exact, so that equality stays transitive
+            // beyond 2^53)
+            (Self::Int64(a), Self::Float64(b)) => cmp_int_float(*a, b.0).is_eq(),
+            (Self::Float64(a), Self::Int64(b)) => cmp_int_float(*b, a.0).is_eq(),
             _ => false,
         }
     }
@@ -653,8 +681,8 @@ impl Ord for OrderableValue {
             (Self::Bool(a), Self::Bool(b)) => a.cmp(b),
             (Self::Timestamp(a), Self::Timestamp(b)) => a.cmp(b),
             // Cross-type numeric comparison
-            (Self::Int64(a), Self::Float64(b)) => OrderedFloat64(*a as f64).cmp(b),
-            (Self::Float64(a), Self::Int64(b)) => a.cmp(&OrderedFloat64(*b as f64)),
+            (Self::Int64(a), Self::Float64(b)) => cmp_int_float(*a, b.0),
+            (Self::Float64(a), Self::Int64(b)) => cmp_int_float(*b, a.0).reverse(),
             // Different types: order by type ordinal for consistency
             // Order: Bool < Int64 < Float64 < String < Timestamp
             _ => self.type_ordinal().cmp(&other.type_ordinal()),
@@ -677,6 +705,17 @@ impl OrderableValue {
 
 impl Hash for OrderableValue {
     fn hash<H: Hasher>(&self, state: &mut H) {
+        // An integer and the float with the same numeric value are equal, so they must hash
+        // equally: integral floats within the i64 range hash like that integer.
+        if let Self::Float64(f) = self
+            && f.0.trunc() == f.0
+            && f.0 >= -9_223_372_036_854_775_808.0
+            && f.0 < 9_223_372_036_854_775_808.0
+        {
+            std::mem::discriminant(&Self::Int64(0)).hash(state);
+            (f.0 as i64).hash(state);
+            return;
+        }
         std::mem::discriminant(self).hash(state);
         match self {
             Self::Int64(i) => i.hash(state),
